@@ -89,6 +89,9 @@ type Check struct {
 	T0      time.Time
 	Level   string
 	Workers int
+	// TriviaEmpty: trivia jobs also try "no trivia at all" / a single blank in the gap
+	// (only for properties that do not compare with the unmodified program)
+	TriviaEmpty bool
 
 	// accumulated over jobs
 	Stats           interp.Stats
